@@ -20,7 +20,7 @@ OK, NOPATH, RANGE_ERR = 'Success', 'Path destination unknown', 'Unknown error 25
 def start_simulator():
     s = socket.socket(); s.bind(('127.0.0.1', 0)); port = s.getsockname()[1]; s.close()
     p = subprocess.Popen([sys.executable, '-m', 'cpppo.server.enip', '--no-udp', '-a', '127.0.0.1:%d' % port] +
-                         ['%s=%s[%d]' % (k, v[0], v[1]) for k, v in TAGS.items()],
+                         ['%s=%s[%d]' % (k, v[0], v[1]) for k, v in TAGS.items()] + ['X=REAL', 'Y=LREAL', 'Z=DINT', 'BIG=DINT[16600]'],
                          stdout=subprocess.DEVNULL, stderr=subprocess.DEVNULL, cwd='/')
     for _ in range(150):
         try:
@@ -39,6 +39,52 @@ def rand_val(rng, ty):
 
 
 # ---------------------------------------------------------------- (a) pylogix
+def pylogix_scalars_and_big(port, rng):
+    """scalar tags declared without a size (X=REAL, Y=LREAL, Z=DINT) written with fractional / boundary values and read back singly
+    and in a multi-read; one array longer than 64 KiB read in a single call (the byte offset passes 16 bits).  -> problems"""
+    import pylogix
+    problems = []
+    with pylogix.PLC() as comm:
+        comm.IPAddress = '127.0.0.1'; comm.Port = port
+        comm.SocketTimeout = 5
+        try:
+            model = {'X': 0.0, 'Y': 0.0, 'Z': 0}
+            for step in range(12):
+                name = rng.choice(['X', 'X', 'Z'])            # (pylogix has no LREAL write; Y is only read)
+                v = rng.choice([3.75, -0.5, 0.125, 1e-3, -1234.5, 2.0]) if name == 'X' else rng.choice([0, -1, 2 ** 31 - 1, -2 ** 31, 77])
+                r = comm.Write(name, v)
+                if r.Status != OK:
+                    problems.append(dict(operation='Write %s = %r' % (name, v), got=r.Status, expected=OK)); break
+                model[name] = struct.unpack('<f', struct.pack('<f', v))[0] if name == 'X' else v
+                r = comm.Read(name)
+                if (r.Value, r.Status) != (model[name], OK):
+                    problems.append(dict(operation='Write %s = %r then Read %s' % (name, v, name), got=repr((r.Value, r.Status)), expected=repr((model[name], OK)))); break
+            rs = comm.Read(['X', 'Z', 'Y'])
+            got = [(x.Value, x.Status) for x in rs]
+            if got != [(model['X'], OK), (model['Z'], OK), (0.0, OK)]:
+                problems.append(dict(operation="Read ['X','Z','Y']", got=repr(got), expected=repr([(model['X'], OK), (model['Z'], OK), (0.0, OK)])))
+            # markers across the 64 KiB line, then the whole array in one call
+            n = 16600
+            big = [0] * n
+            for i in (0, 85, 86, 16383, 16384, 16469, 16470, 16471, n - 1):
+                big[i] = 1000 + i
+                r = comm.Write('BIG[%d]' % i, big[i])
+                if r.Status != OK:
+                    problems.append(dict(operation='Write BIG[%d]' % i, got=r.Status, expected=OK))
+            r = comm.Read('BIG[0]', n)
+            if r.Status != OK or list(r.Value or []) != big:
+                v = list(r.Value or [])
+                k = next((i for i, (a, b) in enumerate(zip(v, big)) if a != b), min(len(v), len(big)))
+                problems.append(dict(operation='Read BIG[0] x %d (%d bytes)' % (n, 4 * n), got='%s, %d values, first difference at element %d' % (r.Status, len(v), k),
+                                     expected='Success, %d values' % n))
+            r = comm.Read('BIG[16400]', 200)
+            if r.Status != OK or list(r.Value or []) != big[16400:]:
+                problems.append(dict(operation='Read BIG[16400] x 200', got=repr((r.Status, list(r.Value or [])[:5])), expected=repr((OK, big[16400:16405]))))
+        except Exception as e:
+            problems.append(dict(operation='scalars / big array', problem='the client raised %s: %s' % (type(e).__name__, str(e)[:120])))
+    return problems
+
+
 def pylogix_history(port, rng, steps, spec, seq_start=None):
     """-> list of problems"""
     import pylogix
@@ -426,6 +472,16 @@ def run(ctx):
                               'pylogix obtained something other than the array model\'s value / documented status')
             if pr:
                 break
+        import threading
+        box = []
+        th = threading.Thread(target=lambda: box.append(pylogix_scalars_and_big(port, rng)), daemon=True)
+        th.start(); th.join(120)
+        if th.is_alive():
+            box.append([dict(operation='scalar tags / Read BIG[0] x 16600', problem='the client did not finish within 120 s (the transfer does not terminate)')])
+        for pm in box[0][:3]:
+            nbad += 1
+            ctx.violation(dict(client='pylogix', **pm), 'pylogix obtained something other than the array model\'s value / documented status')
+        nops += 30
         seqs = [1, 2, 3, 0x7FFE, 0x7FFF, 0x8000, 0x8001, 0xFFFE, 0xFFFF, 0, 1] + [rng.randrange(0, 65536) for _ in range(40 if ctx.thorough else 12)]
         pr = raw_client(port, rng, spec, seqs)
         nops += len(seqs) + 4
